@@ -7,6 +7,7 @@ import (
 	"runtime"
 	"sort"
 	"sync"
+	"sync/atomic"
 )
 
 // runNumProfile records the numeric scans of one family into `shards` files.
@@ -64,10 +65,21 @@ func runNumProfile(profile string, thorough bool, seed int64, out string, shards
 		// the bit-depth functions are called from several goroutines at once, starting with the very first calls
 		// of the process (each goroutine records its own scans into its own file)
 		var wg sync.WaitGroup
+		var ready int32
 		for i := range ws {
 			wg.Add(1)
 			go func(i int) {
 				defer wg.Done()
+				// burst: all goroutines make their FIRST bit-depth calls of the process at the same instant (spin
+				// barrier), results kept in memory and written out afterwards
+				atomic.AddInt32(&ready, 1)
+				for atomic.LoadInt32(&ready) < int32(len(ws)) {
+				}
+				burst := depthBurst(i)
+				ws[i].start(&NEvent{Fam: "depth", Fn: "BitDepth-burst"})
+				for _, e := range burst {
+					ws[i].emit(e)
+				}
 				var part []*numWriter
 				if i == 0 {
 					part = []*numWriter{ws[0]}
